@@ -417,11 +417,16 @@ func genRT(r *vh.Rand) string {
 	var hs []string
 	seen := map[string]bool{}
 	collided := false
+	collidedNow := false
+	mapped := map[string]int{}
 	addH := func(k string, vs ...string) {
-		if seen[k] {
+		mk := strings.Replace(strings.ToUpper(k), "-", "_", -1)
+		// at most one pair of names may collide after the CGI mapping (the driver tries both map orders of one pair)
+		if seen[k] || (mapped[mk] > 0 && !collidedNow) {
 			return
 		}
 		seen[k] = true
+		mapped[mk]++
 		var hv []string
 		for _, v := range vs {
 			hv = append(hv, hexs(v))
@@ -443,7 +448,9 @@ func genRT(r *vh.Rand) string {
 			collided = true
 			k := word(1, 5)
 			addH("X-"+k, word(1, 4))
+			collidedNow = true
 			addH("X_"+k, word(1, 4))
+			collidedNow = false
 		case 4: // attempts to reach protected variables
 			addH(r.Pick("Remote-Addr", "Script-Filename", "Request-Method", "Document-Root", "Server-Name", "Host", "Https", "Path-Info",
 				"Remote_Addr", "Script_Filename", "Content_Length"), r.Pick("127.0.0.1", "/etc/passwd", "on", "evil"))
